@@ -138,7 +138,7 @@ func cmdCheck(args []string) (code int) {
 		}
 		cf.run(c)
 		mergeCtx(rr, c)
-		if i == 0 && o.tier == "thorough" && spec.Arch386 != nil {
+		if i == 0 && spec.Arch386 != nil {
 			// integer-width sensitive rules once more with int/uint = 32 bits (the
 			// type-checked program is the same; only the width model of the prover changes)
 			c32 := NewCtx(p, spec.ID, o.tier, "int/uint modelled as 32 bits (GOARCH=386/arm)")
